@@ -283,3 +283,61 @@ def crosscheck(chk, fam, method, res, args='X', n_points=24, tag=None):
                             'max_relative_error': worst})
     if checked == 0:
         chk.engine_error('cross-check %s.%s: no point could be compared' % (fam, method))
+
+
+def int_theta_replay(fam, meth):
+    def replay(env):
+        import warnings
+        import numpy as np
+        warnings.simplefilter('ignore')
+        import copulas.bivariate as cb
+        cls = getattr(cb, FAMILIES[fam]['native'])
+        bad = []
+        X = np.array([[0.3, 0.6], [0.9999, 0.9999], [0.05, 0.5]])
+        for th in (1, 2, 3, 5):
+            if fam == 'gumbel' and th < 1:
+                continue
+            try:
+                a, b = cls(), cls()
+                a.theta, b.theta = th, float(th)
+                a.tau = b.tau = 0.3
+                ra, rb = getattr(a, meth)(X), getattr(b, meth)(X)
+                if not np.allclose(ra, rb, rtol=1e-12, equal_nan=True):
+                    bad.append('%s.%s with theta=%d (int) gives %r, with theta=%.1f gives %r' %
+                               (fam, meth, th, np.round(ra, 6).tolist(), th, np.round(rb, 6).tolist()))
+                    break
+            except Exception as e:      # noqa
+                bad.append('%s: %s' % (type(e).__name__, str(e)[:80]))
+        return {'confirmed': bool(bad), 'detail': bad[0] if bad else 'integer and float theta agree natively'}
+    return replay
+
+
+def int_theta_obs(chk, prefix, fam, meth, tagi, resR, **run_kw):
+    """a theta stored as an INTEGER (assigned by the user, or read back from a JSON file) gives the same function: the paths of
+    `meth` run with an integer-sorted theta are compared, pairwise where both path conditions can hold, with the paths `resR`
+    of the run with a real theta"""
+    from pyvc.report import Ob
+    F = FAMILIES[fam]
+    _, resI, _ = run_method(fam, meth, theta_term=THI, safety=False, **run_kw)
+    sub = {TH: THI}
+    n_int = 0
+    for a, ri in enumerate(resI):
+        if ri.outcome == 'unsupported':
+            chk.undecided.append(('%s.%s.%s.int_theta.exec' % (prefix, fam, tagi), 'executor', str(ri.value)))
+            continue
+        for b_, rr in enumerate(resR):
+            if rr.outcome != ri.outcome or rr.outcome != 'return':
+                continue
+            pcr = [ir.substitute(p_, sub) for p_ in rr.pc]
+            hy = list(ri.pc) + [p_ for p_ in pcr if p_ not in ri.pc]
+            sat, _m = smt.satisfiable(hy, timeout_ms=3000)
+            if sat is False:
+                continue
+            n_int += 1
+            chk.add(Ob('%s.%s.%s.int_theta_same_as_float.%d_%d' % (prefix, fam, tagi, a, b_), hy,
+                       ir.eq(lane_term(ri.value), ir.substitute(lane_term(rr.value), sub)),
+                       function=F['cls'] + '.' + meth, free_ufs_ok=True, replay=int_theta_replay(fam, meth),
+                       clause='%s with an integer-typed theta (int, numpy integer, a theta read from JSON) is the same '
+                              'function as with the equal float theta' % meth))
+    if n_int == 0 and not chk.undecided:
+        chk.engine_error('%s.%s.%s.int_theta: nothing compared' % (prefix, fam, tagi))
